@@ -119,6 +119,24 @@ def gen_cases(rng, tier):
             a = gen_origin(rng)
             b = a if rng.random() < 0.3 else gen_origin(rng)
             add("Eq", Con("Eq", a, b))
+    # generated code origins (the CodeOrigin subclass with the fixed empty range at index 0) on either side of code
+    # origins of the same / an equal / another source that touch it or not (seeded change C15-8)
+    for s1 in SOURCES[1:]:
+        for s2 in (s1, rng.choice(SOURCES[1:])):
+            for k in (0, 1, 3):
+                code = Con("OCode", s2, R(pt_of_index(rng.choice([0, 0, 1])), pt_of_index(k + 1)))
+                add("Add-gen", Con("Add", Con("OGen", s1), code))
+                add("Add-gen", Con("Add", code, Con("OGen", s1)))
+            add("Add-gen", Con("Add", Con("OGen", s1), Con("OGen", s2)))
+            add("Add-gen", Con("Concat", Con("OGen", s1), [Con("OCode", s2, R(pt_of_index(0), pt_of_index(2))), Con("OGen", s2)]))
+    # a multi-origin in the leading position of a merge / sum (the result must be a new flat listing)
+    for _ in range(20 if tier == "quick" else 300):
+        m = gen_origin(rng)
+        while m.name != "OMulti":
+            m = gen_origin(rng)
+        rest = [gen_origin(rng) for _ in range(rng.randint(1, 3))]
+        add("Merge-multi-first", Con("Merge", [m] + rest))
+        add("Merge-multi-first", Con("Add", m, rest[0]))
     # code origins of one source, every pair of grid ranges: the hull / slice clause; the two operands may hold
     # equal sources with different texts (the slice is taken from the left operand's source)
     for x, y in itertools.product(rs, rs):
@@ -235,6 +253,21 @@ def obs_origin(o):
     return Con("Obs", obs_origin_struct(o), o.fqn, obs_source(o.source), obs_raw(o.get_raw()))
 
 
+def pure(f, operands):
+    """The operation is applied twice to the very same operand objects; the operands are observed before and after.
+    Origins are values: the second result must equal the first and no operand may change (seeded change C15-9, a
+    result list aliasing the member list of its leading operand)."""
+    before = [obs_origin(x) for x in operands]
+    r1 = guarded(f, obs_origin)
+    r2 = guarded(f, obs_origin)
+    after = [obs_origin(x) for x in operands]
+    if norm(before) != norm(after):
+        return Con("OperandChanged", r1)
+    if norm(r1) != norm(r2):
+        return Con("Unstable", r1, r2)
+    return r1
+
+
 def guarded(f, obs):
     try:
         v = f()
@@ -257,14 +290,14 @@ def impl(t, case):
                    a == b, a.start > b.start, a.end >= b.end)
     if t.name == "Add":
         a, b = mk_origin(t.args[0]), mk_origin(t.args[1])
-        return guarded(lambda: a + b, obs_origin)
+        return pure(lambda: a + b, [a, b])
     if t.name == "Merge":
         os_ = [mk_origin(x) for x in t.args[0]]
-        return guarded(lambda: O.merge_origins(*os_), obs_origin)
+        return pure(lambda: O.merge_origins(*os_), os_)
     if t.name == "Concat":
         a = mk_origin(t.args[0])
         os_ = [mk_origin(x) for x in t.args[1]]
-        return guarded(lambda: O.concat_origins(a, *os_), obs_origin)
+        return pure(lambda: O.concat_origins(a, *os_), [a] + os_)
     if t.name == "Eq":
         return norm(mk_origin(t.args[0]) == mk_origin(t.args[1]))
     raise ValueError("unknown op")
